@@ -421,6 +421,10 @@ theorem hist_invariants (o : Obj) (ops : List Op) :
             case setPre x => cases h : bcast3 x <;> simp [h] at hs; subst hs; exact ⟨rfl, rfl⟩
             case from44 A e => simp at hs; subst hs; exact ⟨rfl, rfl⟩
             case copy => simp at hs; subst hs; exact ⟨rfl, rfl⟩
+            case pickle => simp at hs; subst hs; exact ⟨rfl, rfl⟩
+            case inv x e =>
+              cases h : (asAffine o.v o.direct x).inv <;> simp [h] at hs
+              subst hs; exact ⟨rfl, rfl⟩
           obtain ⟨h1, h2⟩ := ih o'
           exact ⟨h1.trans hinv.1, h2.trans hinv.2⟩
 
@@ -460,6 +464,44 @@ theorem from44_state (o : Obj) (A : Aff) (e : F44Ext) :
   · simp only [fromMatrix44]
     split <;> simp only [affineFrom44, rigidFrom44, simFrom44, svdFix, rigidFix, simFix] <;>
       split_ifs <;> simp
+
+/-- `pickle.loads(pickle.dumps(t))` and `t.copy()` are neutral at any place of a history: the state
+    (and so every later observation) is that of the history without them -/
+theorem hist_pickle_copy_neutral (o : Obj) (a b : List Op) :
+    (o.run (a ++ .pickle :: b)).2 = (o.run (a ++ b)).2 ∧ (o.run (a ++ .copy :: b)).2 = (o.run (a ++ b)).2 := by
+  constructor <;>
+  · rw [hist_append, hist_append o a b]
+    simp only [Obj.run, Obj.step, pure, Except.pure]
+
+/-- `t = t.inv()` inside a history, for the classes that decompose through the SVD (`Affine`,
+    `Affine2D`): whenever the current matrix is invertible the step is accepted, keeps class and
+    preconditioner, forgets the integer storage, and — for certified leaves of the new
+    `from_matrix44` call (as in `from_to_matrix44`) — the new object's `as_affine()` is the exact
+    inverse of the old one, so it maps transformed points back; the reflection flag of the result
+    does not depend on the flag history of the old object (a fresh object takes the matrix). -/
+theorem hist_inv_affine (o : Obj) (hk : fromKind o.cls = 0) (x x' : Ext) (e : F44Ext) (B : Aff)
+    (hB : (asAffine o.v o.direct x).inv = some B)
+    (hsvd : B.m = e.U.mul ((M3.diag e.s).mul e.Vt))
+    (hU : e.U.transpose.mul e.U = M3.one) (hV : e.Vt.transpose.mul e.Vt = M3.one)
+    (hbx : -maxDist ≤ B.t.x ∧ B.t.x ≤ maxDist) (hby : -maxDist ≤ B.t.y ∧ B.t.y ≤ maxDist)
+    (hbz : -maxDist ≤ B.t.z ∧ B.t.z ≤ maxDist)
+    (chR shR chQ shQ : Rat)
+    (CR : RoundTripCert (svdFix true e.U e.Vt).R e.eR x'.rot chR shR)
+    (CQ : RoundTripCert (svdFix true e.U e.Vt).Q e.eQ x'.pre chQ shQ)
+    (hs : x'.scales = e.s) :
+    ∃ o', o.step (.inv x e) = .ok o' ∧ o'.cls = o.cls ∧ o'.pc = o.pc ∧ o'.ints = false ∧
+      asAffine o'.v o'.direct x' = B ∧
+      ∀ p, (asAffine o'.v o'.direct x').apply ((asAffine o.v o.direct x).apply p) = p := by
+  have hf : fromMatrix44 o.cls true B e = affineFrom44 true B e := by
+    simp only [fromMatrix44, hk]
+  have hrt := from_to_matrix44 B e x' hsvd hU hV hbx hby hbz chR shR chQ shQ CR CQ hs
+  refine ⟨{ o with v := (fromMatrix44 o.cls true B e).1, direct := (fromMatrix44 o.cls true B e).2, ints := false },
+    ?_, rfl, rfl, rfl, ?_, ?_⟩
+  · simp only [Obj.step, hB, pure, Except.pure]
+  · simp only [hf]; exact hrt
+  · intro p
+    simp only [hf, hrt]
+    exact (apply_inv _ B hB p).1
 
 /-- a fresh transform of any class and radius is the identity map -/
 theorem fresh_is_identity (c : Cls) (radius : Rat) (e : Ext) (hr : e.rot.theta = 0) (hq : e.pre.theta = 0)
@@ -817,5 +859,9 @@ example : (⟨1, 2, 0, 0, 0, 3, 0, 0, 0, 0, 0, 0⟩ : Vec12).SupportedOn (slots 
     simp [slots, setPairs, paramInds, Gen.C08.indsRigid2D, List.zip, List.range, List.range.loop] at hn
     omega
   rcases this with h | h | h | h | h | h | h | h | h <;> subst h <;> rfl
+
+example : (asAffine (Obj.fresh .affine 100).v true ⟨⟨0, 0, 1⟩, ⟨1, 1, 1⟩, ⟨0, 0, 1⟩⟩).inv = some Aff.one ∧
+    ((Obj.fresh .rigid 100).run [.pickle, .inv ⟨⟨0, 0, 1⟩, ⟨1, 1, 1⟩, ⟨0, 0, 1⟩⟩ noF44, .copy]).1 = ["ok", "ok", "ok"] := by
+  decide +kernel
 
 end NipyVerif.C08
